@@ -16,7 +16,7 @@ BASE = dict(Kinds=["sock", "pipeR"], NT=0, Limit=2, MaxOps=3, MaxCmds=5, HBudget
             MaxPosts=0, MaxDrain=3, Cmds={"read", "cancel", "close"}, Envs={"send", "peerclose"}, TickUs=4000,
             Class="gen", MaxHist=0, Focus=ALL,
             BUG_HupOnly=False, BUG_StaleTimer=False, BUG_CancelAfterClose=False, BUG_RegLeak=False,
-            BUG_DelSkip=False, Late=set(), LateT=set())
+            BUG_DelSkip=False, BUG_ZeroDelayClearsCancel=False, Late=set(), LateT=set())
 
 CFG_BODY = ("SPECIFICATION Spec\nINVARIANTS TypeOK PendingExact DepthBound\nVIEW View\n"
             "ACTION_CONSTRAINT EmitAll\nCHECK_DEADLOCK FALSE")
